@@ -74,6 +74,16 @@ def run(ck):
     from .c08 import h1_h2_h5_influence, h4_keys
     ck.run_rule(h1_h2_h5_influence)
     ck.run_rule(h4_keys)
+    # faithful position tracking is `by_performing_moves` move by move: the successor function (C02's U rules); "every go gets its
+    # bestmove" needs the root's entry to be stored whatever the table holds already: a store is never refused (C15's T3, T4)
+    from . import c02 as _c02
+    _ctx = {}
+    for _r in (_c02.collect_sets, _c02.u0_u4_piece_updates, _c02.u1_rook_relocation, _c02.u2_rights, _c02.u3_u5_state_fields):
+        ck.run_rule(_r, _ctx)
+    ck.run_rule(_c02.u6_unique_resolution)
+    from .c15 import t3_never_emptied, t4_eviction
+    ck.run_rule(t3_never_emptied)
+    ck.run_rule(t4_eviction)
 
 
 def _shape(ck, rule):
